@@ -21,10 +21,12 @@ func init() {
 			"(R5) every constant-bound index/slice in the repo functions statically reachable from DatabaseAPI.Handle is dominated by a length test implying the bound (or a named idiom/invariant). " +
 			"(R6) lock pairing over the functions statically reachable from api.(*DatabaseAPI).Handle, api.MarshalRecord: " + lockRuleText + ". " +
 			"(R7) Record.Marshal yields no data for a deleted record before any other rejection (processSub marshals before it looks at the deleted flag, so the del notification depends on it; shared with C08-R7). " +
+			"(R8) error discipline over the database API (api/database.go): " + repoErrText + ". " +
 			"NOT decided: absence of other panics for arbitrary messages, wedging, content preservation of written records.",
 		Rules: []ruleFn{c13R1, c13R2, c13R3, func(c *Ctx, r *Report) { subscriptionFeedRule(c, r, "C13-R4") }, c13R5,
 			lockRuleFor("C13-R6", 15, []string{}, []string{"api.(*DatabaseAPI).Handle", "api.MarshalRecord"}, map[string]string{}),
-			func(c *Ctx, r *Report) { deletedFirstRule(c, r, "C13-R7") }},
+			func(c *Ctx, r *Report) { deletedFirstRule(c, r, "C13-R7") },
+			repoErrRuleFor("C13-R8", 15, func(c *Ctx, fn *ssa.Function) bool { return short(fn.Pkg.Pkg.Path()) == "api" && inFile(c, fn, "api/database.go") }, map[string]string{"api.(*DatabaseAPI).processSub / database.Subscription.Cancel": "cancel at API shutdown is best effort; the feed is abandoned either way", "api.(*DatabaseWebsocketAPI).handler$1 / api.DatabaseWebsocketAPI.shutdown": "shutdown only returns the error it was given or a stop sentinel for the worker", "api.(*DatabaseWebsocketAPI).writer$1 / api.DatabaseWebsocketAPI.shutdown": "shutdown only returns the error it was given or a stop sentinel for the worker"})},
 	})
 }
 
